@@ -98,6 +98,24 @@ def scripts_from_graph(ctx, rng, cfg, n, max_len, want=None, prop="C17"):
     return out
 
 
+def goal_scripts(ctx, goals, consts, prop, first_id):
+    """TLC witnesses of (negated) reachability goals as scripts."""
+    import vcheck
+    out = []
+    for g in goals:
+        cfg = write_cfg(ctx, "goal_" + g, *consts, check=False)
+        with open(os.path.join(ctx.specdir(), cfg), "a") as f:
+            f.write("PROPERTY %s\n" % g)
+        r = ctx.tlc("RaftMembership.tla", cfg, workers=4, timeout=1200, count=False, expect_violation=True)
+        if not r.violation:
+            raise vcheck.Infra("reachability goal %s is unreachable in RaftMembership" % g)
+        states = c01.parse_error_trace(r.out)
+        steps = [step_of(s) for s in states]
+        out.append({"id": first_id + len(out), "src": "goal:" + g, "prop": prop, "peers": sorted(states[0]["status"].keys()),
+                    "cids": ["c1", "c2"], "steps": steps})
+    return out
+
+
 def run_member_driver(ctx, scripts, prop, label, par):
     import vcheck
     inp = os.path.join(ctx.work, "%s_scripts.ndjson" % label)
